@@ -124,6 +124,13 @@ class Repo:
                 for st in tree.body:
                     if isinstance(st, ast.FunctionDef) and st.name == fname:
                         _loops.instrument_function(st, fq, set(ks))
+            elif fmod.rsplit(".", 1)[0] == modname and "." in fmod:       # method: <module>.<Class>.<name>
+                cname = fmod.rsplit(".", 1)[1]
+                for cls in tree.body:
+                    if isinstance(cls, ast.ClassDef) and cls.name == cname:
+                        for st in cls.body:
+                            if isinstance(st, ast.FunctionDef) and st.name == fname:
+                                _loops.instrument_function(st, fq, set(ks))
         ast.fix_missing_locations(tree)
         ns["__d3vc_len__"] = _zarr.d3vc_len
         ns["__d3vc_and__"] = _loops.d3vc_and
